@@ -20,11 +20,16 @@ NA = {
 
 # engine -> (kind text)
 ENGINES = {
+ "spanlin": (["C10"], "token scheduler over simgen-instrumented sdk/trace; recording SpanProcessors; porcupine linearizability check against a sequential span model; runtime/trace toggled per seed block"),
  "bsp": (["C01"], "token scheduler over simgen-instrumented sdk/trace inside a synctest bubble; scripted SpanExporter"),
  "logbatch": (["C06"], "token scheduler over simgen-instrumented sdk/log inside a synctest bubble; scripted log Exporter and a mutating second Processor"),
 }
 
 CHECKS = {
+ "C10": dict(engine="spanlin",
+   text="seeded search over interleavings of End/SetAttributes/AddEvent/AddLink/SetStatus/SetName/RecordError/IsRecording/child Start on shared spans, with Go execution tracing really on and off; recorded invoke/return histories are checked for linearizability with porcupine against a sequential span model, plus direct checks (exactly one OnEnd per processor, immutable snapshot, single end time, not recording after End, no panic/deadlock)",
+   ref="DESIGN.md §3 C10",
+   note="sequentially consistent interleavings at statement granularity (read-modify-write statements on shared memory are additionally split); 'no data race' is decided in its consequence form only (DESIGN.md §2.8); the model covers default span limits"),
  "C01": dict(engine="bsp",
    text="seeded search over schedules, time advances, configurations and exporter faults of the real batch span processor under a deterministic scheduler; history oracle for exactly-once, batch size, exporter exclusivity, flush visibility, drop accounting, export-after-shutdown and bounded liveness",
    ref="DESIGN.md §3 C01",
